@@ -224,6 +224,11 @@ def gen_stream(rng, style=None, plain=False, doubling=None):
       rows = rng.sample(range(1, 16), rng.randint(1, 4))
       if rng.random() < 0.7:
         rows.sort()
+      if (not plain) and cap > 0 and rng.random() < 0.12:
+        # nothing is loaded: the EOC flips all the same (what was on screen goes to the non-displayed memory and comes back
+        # with the next flip unless that memory is erased first)
+        rows = []
+        em.features.add("empty_flip")
       for row in rows:
         if (not plain) and rng.random() < 0.12:
           _readdress(em, rng, row, opts, st)
